@@ -26,7 +26,7 @@ def run(ctx):
     sf = env.load_selfies()
     rng = ctx.rng
     quick = ctx.tier == "quick"
-    for it in range(700 if quick else 20000):
+    for it in range(2500 if quick else 40000):
         syms = list(SYMS)
         rng.shuffle(syms)
         k = rng.randint(2, len(syms))
